@@ -308,6 +308,9 @@ class Writer(object):
         if f == 'enumerate' and isinstance(target, ast.Tuple) and len(target.elts) == 2:
             self.env[target.elts[0].id] = None if not isinstance(target.elts[0], ast.Name) else Poly.atom('idx:' + target.elts[0].id)
             return self.bind_loop(target.elts[1], call.args[0])
+        while f in ('list', 'tuple') and call is not None and len(call.args) == 1 and isinstance(call.args[0], ast.Call):
+            call = call.args[0]
+            f = dotted(call.func)
         if f == 'zip' and isinstance(target, ast.Tuple) and len(target.elts) == len(call.args):
             for t, a in zip(target.elts, call.args):
                 self.bind_loop(t, a)
@@ -355,8 +358,11 @@ class Writer(object):
         t = st.targets[0]
         if isinstance(t, ast.Name):
             v = None
-            if isinstance(st.value, ast.Call) and dotted(st.value.func) == 'zip':
-                v = ('zipobj', list(st.value.args))
+            zv = st.value
+            while isinstance(zv, ast.Call) and dotted(zv.func) in ('list', 'tuple') and len(zv.args) == 1:
+                zv = zv.args[0]             # list(zip(..)) / tuple(zip(..)): the same pairs, materialised
+            if isinstance(zv, ast.Call) and dotted(zv.func) == 'zip':
+                v = ('zipobj', list(zv.args))
             elif isinstance(st.value, ast.Call) and dotted(st.value.func) == 'open':
                 v = None
             else:
